@@ -48,10 +48,10 @@ add("C09", "TestC09",
           "runes, CRLF pairs, escape pairs, multi-byte delimiters and the BOM, runs of <=3 (0,nil) reads, data returned with io.EOF). "
           "Oracle: the transcript (records, error classes and texts, checksums) under each schedule equals the single-chunk transcript. "
           "Non-trivial: >= 2 results before the terminal one and a schedule with a forced cut inside one of those byte pairs; distinct by "
-          "SHA-256 of the serialised case. About 12 % of the cases take one of the repository's own sample schemas with (the first 4 KiB of) its sample input as subject instead of a generated shape (class repo-sample)."),
+          "SHA-256 of the serialised case. About 12 % of the cases take one of the repository's own sample schemas with (the first 4 KiB of) its sample input as subject instead of a generated shape (class repo-sample). One case in eight (not the fixed-length formats) stretches one value to 3400-8400 bytes, a token longer than the 4096-byte buffers of bufio and of the decoders, so that consumers ask the source for >= 4096 bytes at once (class token>=3400)."),
     quick={"checks": 2500, "shards": 4, "timeout": 600},
     thorough={"checks": 20000, "shards": 16, "timeout": 3000, "fuzz": [{"target": "FuzzC09", "time": 180}]},
-    floors={"repo-sample": 0.04, "cut=rune": 0.10, "cut=crlf": 0.10, "cut=escape": 0.10, "cut=bom": 0.10, "malformed": 0.10, "zero-reads": 0.2},
+    floors={"token>=3400": 0.03, "repo-sample": 0.04, "cut=rune": 0.10, "cut=crlf": 0.10, "cut=escape": 0.10, "cut=bom": 0.10, "malformed": 0.10, "zero-reads": 0.2},
     assumptions=["runs of (0,nil) reads are capped at 3 (bufio legitimately gives up with ErrNoProgress after 100)",
                  "for the json format the digits after 'line ' in error texts are masked (documented as a rough number that depends on decoder pre-fetch)"])
 
@@ -96,10 +96,10 @@ add("C10", "TestC10",
           "three ways (type cast, two xpath matches [xml], custom function error [javascript throw]). Oracle: out(r1..rn) = "
           "out(r1)++...++out(rn) (single-record runs), out(A++B) = out(A)++out(B), out(perm R) = perm out(R), replacement changes exactly "
           "that position into a per-record failure; compared on (kind, JSON, checksum). Non-trivial: a split between differently sized "
-          "records, a permutation that moves a record, or a failing replacement not in last position; distinct by SHA-256 of the case. A third of the cases contain a near-duplicate pair: a copy of a record, right after it, that differs in one value only (for XML shapes possibly an attribute of a text-only element). XML shapes may give their records two different element names with a wildcard as last step of the target xpath."),
+          "records, a permutation that moves a record, or a failing replacement not in last position; distinct by SHA-256 of the case. A third of the cases contain a near-duplicate pair: a copy of a record, right after it, that differs in one value only (for XML shapes possibly an attribute of a text-only element). XML shapes may give their records two different element names with a wildcard as last step of the target xpath. The old fixed-length by_rows layout may recognise a record's first row by 'A' or a blank in column 1; records whose first-row values are all empty then have a white-space-only first row (class first-row-all-blank)."),
     quick={"checks": 1500, "shards": 4, "timeout": 600},
     thorough={"checks": 10000, "shards": 16, "timeout": 3000},
-    floors={"permuted": 0.4, "bad-not-last": 0.15, "bad-kind=1": 0.1, "bad-kind=2": 0.01, "bad-kind=3": 0.02, "xform=2": 0.15},
+    floors={"first-row-all-blank": 0.002, "permuted": 0.4, "bad-not-last": 0.15, "bad-kind=1": 0.1, "bad-kind=2": 0.01, "bad-kind=3": 0.02, "xform=2": 0.15},
     assumptions=["schemas address only the record's own data (no '..' / absolute xpaths), as the property's quantifier requires"])
 
 add("C15", "TestC15",
@@ -108,10 +108,10 @@ add("C15", "TestC15",
           "sub-record value) of one record is modified. Oracle: byte-identical Read output, error text and checksums for first run / "
           "run after the other transforms / fresh process; equal raw records <=> equal checksums on the observed set; the modified "
           "record's checksum changes and no other record's does. Non-trivial: >= 2 records, output object with >= 3 keys and >= 1 other "
-          "transform before the measured one; distinct by SHA-256 of the case. About 12 % of the cases take one of the repository's own sample schemas with (the first 4 KiB of) its sample input as subject instead of a generated shape (class repo-sample). History steps also include: the process builds an Extension the documented way (customfuncs.Merge of the common, the omni.2.1 and own functions that shadow builtins) and runs a transform through it; one transformctx.Ctx value handed to the other transforms and to the second measured run (each under its own input name). XML shapes may write the last column as an attribute of the text-only element c0 (read with c0/@a); the leaf mutation then often changes that attribute (open finding C15-F1: the checksum does not see it). Typed externals (int, boolean; one as a javascript argument) are part of the externals flavour."),
+          "transform before the measured one; distinct by SHA-256 of the case. About 12 % of the cases take one of the repository's own sample schemas with (the first 4 KiB of) its sample input as subject instead of a generated shape (class repo-sample). History steps also include: the process builds an Extension the documented way (customfuncs.Merge of the common, the omni.2.1 and own functions that shadow builtins) and runs a transform through it; one transformctx.Ctx value handed to the other transforms and to the second measured run (each under its own input name). XML shapes may write the last column as an attribute of the text-only element c0 (read with c0/@a); the leaf mutation then often changes that attribute (open finding C15-F1: the checksum does not see it). Typed externals (int, boolean; one as a javascript argument) are part of the externals flavour. A third of the generated schemas add fields computed by epochToDateTimeRFC3339, dateTimeToRFC3339 and dateTimeToEpoch WITHOUT a time zone argument, and the fresh process runs with TZ=Asia/Tokyo (another local zone than this process, if the host has the zone database): the host's local zone is not among the things a result may depend on."),
     quick={"checks": 250, "shards": 4, "timeout": 600},
     thorough={"checks": 3000, "shards": 16, "timeout": 3000},
-    floors={"own-extension-in-history": 0.1, "ctx-value-reused": 0.15, "repo-sample": 0.04, "warmed": 0.5, "fresh-process": 0.2, "leaf-mutation": 0.2},
+    floors={"zoneless-datetime-calls+fresh-process-in-another-zone": 0.04, "own-extension-in-history": 0.1, "ctx-value-reused": 0.15, "repo-sample": 0.04, "warmed": 0.5, "fresh-process": 0.2, "leaf-mutation": 0.2},
     assumptions=["'now' and random scripts are never generated (excluded by the property)",
                  "leaf mutations are restricted to declared columns / elements, which the raw record is documented to carry"])
 
@@ -141,10 +141,10 @@ add("C18", "TestC18",
           "BOM); delivered in one chunk or byte by byte. Oracle: transcript(bytes, encoding X) = transcript(code page table applied to "
           "the bytes, utf-8) with the tables hard-coded in the harness (unassigned cp1252 bytes: U+FFFD); "
           "utf-8: omitted encoding = utf-8, leading BOM changes nothing and never appears in output. Non-trivial: the input has a byte "
-          ">= 0x80 (or a BOM) and >= 1 record is delivered; distinct by SHA-256 of the case. A third of the XML inputs start with an XML declaration carrying its own encoding label (ISO-8859-1, windows-1252, latin1, UTF-8, utf8, us-ascii), applied by the xml decoder on both sides of the relation. A sixth of the single-byte cases inject only character groups whose bytes form well-formed UTF-8 (C3 A9, E2 82 AC ...). The five unassigned windows-1252 bytes must convert to U+FFFD."),
+          ">= 0x80 (or a BOM) and >= 1 record is delivered; distinct by SHA-256 of the case. A third of the XML inputs start with an XML declaration carrying its own encoding label (ISO-8859-1, windows-1252, latin1, UTF-8, utf8, us-ascii), applied by the xml decoder on both sides of the relation. A sixth of the single-byte cases inject only character groups whose bytes form well-formed UTF-8 (C3 A9, E2 82 AC ...). The five unassigned windows-1252 bytes must convert to U+FFFD. Every utf-8 case with a BOM is also run with an overlapping opening: the source's first Read (NewTransform waits in it for the first bytes) opens and reads to its end a second transform of the same Schema over the same bytes before it delivers anything (class bom+overlapping-open)."),
     quick={"checks": 1500, "shards": 4, "timeout": 600},
     thorough={"checks": 12000, "shards": 16, "timeout": 3000},
-    floors={"enc=iso-8859-1": 0.25, "enc=windows-1252": 0.25, "enc=utf-8": 0.2, "bytes-80-9F": 0.4, "bom": 0.08},
+    floors={"enc=iso-8859-1": 0.25, "enc=windows-1252": 0.25, "enc=utf-8": 0.2, "bytes-80-9F": 0.4, "bom": 0.08, "bom+overlapping-open": 0.05},
     assumptions=["structural bytes of every format are ASCII; only field values carry high bytes"])
 
 META["C10"] = {
@@ -300,12 +300,12 @@ add("C12", "TestC12", race=True, note_current=True,
           "test TestC12Churn, which runs on the plain build because sync.Pool drops Puts at random under -race) checks blankness and "
           "that no ID of the history is ever handed out again. Non-trivial: "
           "(ops) a non-root removal followed by an acquisition that returns a pointer released earlier, (reader) >= 2 records and an "
-          "observed pool re-use, (conc) always; distinct by SHA-256 of the case. A third arm-let (3 %, kind=jsonvalues) drives the JSON stream reader by hand over several top-level values with root-selecting and child-selecting xpaths and audits every tree it hands out; TestC12Churn also floods the pool (a tree of 1100-33000 nodes released at once, then that many + 500 acquisitions: no node handed out twice)."),
+          "observed pool re-use, (conc) always; distinct by SHA-256 of the case. A third arm-let (3 %, kind=jsonvalues) drives the JSON stream reader by hand over several top-level values with root-selecting and child-selecting xpaths and audits every tree it hands out; TestC12Churn also floods the pool (a tree of 1100-33000 nodes released at once, then that many + 500 acquisitions: no node handed out twice). A quarter of the reader cases take a generated declaration hierarchy (edi / csv2 / fixedlength2: groups, nested records, the target anywhere - also on a group) as subject (class reader:hierarchy)."),
     quick={"checks": 2500, "shards": 4, "timeout": 900, "gomaxprocs": 8,
            "extra": [{"test": "TestC12Churn", "checks": 60, "shards": 2, "plain": True}]},
     thorough={"checks": 40000, "shards": 16, "timeout": 3300, "gomaxprocs": 8,
               "extra": [{"test": "TestC12Churn", "checks": 1500, "shards": 8, "plain": True}]},
-    floors={"kind=jsonvalues": 0.003, "flood": 0.001, "ops:reuse-after-nonroot-removal": 0.4, "kind=reader": 0.05, "kind=conc": 0.01, "churn>=65536": 0.002},
+    floors={"reader:hierarchy": 0.004, "kind=jsonvalues": 0.003, "flood": 0.001, "ops:reuse-after-nonroot-removal": 0.4, "kind=reader": 0.05, "kind=conc": 0.01, "churn>=65536": 0.002},
     assumptions=["ID uniqueness is checked within one case (the check is a pure function of the case); across cases the atomic counter is "
                  "exercised by the concurrent arm under the race detector",
                  "the post-EOF Read goes slightly beyond what Transform does (it never re-reads after a terminal result)"])
@@ -421,10 +421,10 @@ add("C20", "TestC20", race=True, note_current=True,
           "_node scripts; arguments strings, ints, floats, bools; nodes mutated between calls. Oracle: each result equals the same "
           "script on a brand-new goja runtime created in the harness with _node = idr.JSONify2(node now): error <=> error, equal JSON. "
           "Built with -race. Non-trivial: a call probes a name that an earlier call on the same goroutine/transform set, or a _node call "
-          "hits a node whose JSON differs from its previous _node call; distinct by SHA-256 of the case. One call in eight with arguments has an ill-formed argument list (a non-string argument name after 0-2 well-formed pairs): the call must fail and nothing of it may reach a later call (class ill-formed-argument-list). Rarely an argument is called _node."),
+          "hits a node whose JSON differs from its previous _node call; distinct by SHA-256 of the case. One call in eight with arguments has an ill-formed argument list (a non-string argument name after 0-2 well-formed pairs): the call must fail and nothing of it may reach a later call (class ill-formed-argument-list). Rarely an argument is called _node. Half of the json stack cases make c0 a JSON number and put a javascript_with_context field on it (the _node of a leaf that is a bare number; class stack:_node-of-a-number-leaf)."),
     quick={"checks": 300, "shards": 4, "timeout": 900, "gomaxprocs": 8},
     thorough={"checks": 8000, "shards": 16, "timeout": 3300, "gomaxprocs": 8},
-    floors={"ill-formed-argument-list": 0.15, },
+    floors={"ill-formed-argument-list": 0.15, "stack:_node-of-a-number-leaf": 0.015},
     assumptions=["scripts that assign globals (incl. top-level var), loop, or use Date/Math.random are excluded by the statement",
                  "the error classification of the reference is done in JavaScript inside the fresh runtime"])
 
@@ -458,10 +458,10 @@ add("C02", "TestC02",
           "idr.MatchAll without cache. Where the documentation is silent (kept empty container as null / {} / []; failing xpath_dynamic; "
           "failing argument under ignore_error) all documented-compatible outcomes are accepted and counted. Non-trivial: identical "
           "declaration text with an anchor at >= 2 positions, or a template used at >= 2 places, or an array of >= 10 children, or >= 3 "
-          "nested anchors; distinct by SHA-256 of the case. Custom functions include two caller-registered ones (Extension built with customfuncs.Merge): c02mix(string, int64, bool, float64) and the variadic c02var(string, ...interface{}), with absent, well-typed constant and cast arguments. One-parameter functions sometimes get a surplus argument (with or without a value); javascript calls with numeric results are cast with type (float -> int truncates toward zero)."),
+          "nested anchors; distinct by SHA-256 of the case. Custom functions include two caller-registered ones (Extension built with customfuncs.Merge): c02mix(string, int64, bool, float64) and the variadic c02var(string, ...interface{}), with absent, well-typed constant and cast arguments. One-parameter functions sometimes get a surplus argument (with or without a value); javascript calls with numeric results are cast with type (float -> int truncates toward zero). One case in five adds textually identical copy calls WITHOUT an anchor of their own at several cursor positions of one record (every element of an array over an xpath, an anchored object, the record itself): their values differ only by the node they are evaluated on (class implicit-node-func-at-several-nodes)."),
     quick={"checks": 2000, "shards": 4, "timeout": 900},
     thorough={"checks": 15000, "shards": 16, "timeout": 3300},
-    floors={"identical-text": 0.05, "template-multi-use": 0.05, "array>=10": 0.05, "deep-anchors": 0.05,
+    floors={"implicit-node-func-at-several-nodes": 0.08, "identical-text": 0.05, "template-multi-use": 0.05, "array>=10": 0.05, "deep-anchors": 0.05,
             "format=xml": 0.3, "format=json": 0.15, "format=csv2": 0.05, "format=edi": 0.05},
     assumptions=["trusted base: idr.MatchAll (expression cache disabled) selects the node set of an xpath (the xpath binding is C11's / C04's subject); "
                  "built-in custom functions are called directly by the model",
